@@ -54,7 +54,7 @@ def report(ctx, what, replay):
 TYPE_CHARS = 'ABCDEFGHIJKLMNOPQRSTUVWXYZabcdefghijklmnopqrstuvwxyz0123456789'
 
 
-def gen_dictionary(rng, allow_float=True):
+def gen_dictionary(rng, allow_float=True, overlap=False):
     pool = fc.TagPool(rng)
     depth = rng.choice([0, 1, 1, 2, 2, 3])
     hdr = [('f', 35, 'string', True)] + fc.gen_entries(rng, pool, rng.randint(0, 3), min(depth, 1), allow_float)
@@ -68,6 +68,18 @@ def gen_dictionary(rng, allow_float=True):
     for ty in sorted(types):
         body = fc.gen_entries(rng, pool, rng.randint(0, 6), depth, allow_float)
         mdefs.append({'name': fc.fresh_name(), 'type': ty, 'hdr': hdr, 'body': body, 'trl': trl})
+    if overlap:
+        # outside the quantifier: a tag used at two different levels (like tests/fix_messages.py: body field 1 and
+        # group field 1); tags inside one level stay distinct.  Compared for model/implementation agreement only.
+        for d in mdefs:
+            nested = [(g, e) for g in d['body'] if g[0] == 'g' for e in g[3] if e[0] == 'f']
+            plain = [i for i, e in enumerate(d['body']) if e[0] == 'f']
+            if nested and plain:
+                g, e = rng.choice(nested)
+                i = rng.choice(plain)
+                if e[1] not in [x[1] for x in d['body']]:
+                    d['body'] = list(d['body'])
+                    d['body'][i] = ('f', e[1], e[2], d['body'][i][3])      # same field class at both levels
     return mdefs
 
 
@@ -160,7 +172,7 @@ def mutate_assignments(rng, d, a):
 
 
 def mutate_bytes(rng, b, types):
-    c = rng.randrange(13)
+    c = rng.randrange(14)
     ba = bytearray(b)
     if c == 0 and len(ba) > 1:
         return 'truncate', bytes(ba[:rng.randrange(1, len(ba))])
@@ -188,7 +200,7 @@ def mutate_bytes(rng, b, types):
     if c == 5:
         fields = bytes(ba).split(b'\x01')[:-1]
         i = rng.randint(0, len(fields))
-        fields.insert(i, rng.choice([b'7=1', b'77777=x', b'=', b'abc', b'1_2=3', b' 12=4', b'+5=1', b'-5=1', b'12', b'\xff=1', b'0x1=1']))
+        fields.insert(i, rng.choice([b'7=1', b'77777=x', b'=', b'abc', b'1_2=3', b' 12=4', b'+5=1', b'-5=1', b'12', b'\xff=1', b'0x1=1', b'\x1c7=1', b'7\x1f=1', b'7\x0c=1']))
         return 'insert', b''.join(f + b'\x01' for f in fields)
     if c == 6:
         fields = bytes(ba).split(b'\x01')[:-1]
@@ -209,6 +221,12 @@ def mutate_bytes(rng, b, types):
         return 'random', rng.randbytes(rng.randint(0, 30))
     if c == 10 and ba:
         return 'no-final-soh', bytes(ba[:-1])
+    if c == 12:
+        idx = [i for i, x in enumerate(ba) if x == 61]
+        if idx:
+            i = rng.choice(idx) + rng.choice([0, 1])
+            ba[i:i] = bytes([rng.choice(b' \t\n\x0b\x0c\r\x1c\x1d\x1e\x1f_+-0')])
+            return 'ws', bytes(ba)
     if c == 11:
         return 'extra', bytes(ba) + rng.choice([b'\x01', b'x', b'1=2\x01', b'35=A\x01'])
     return 'same', bytes(ba)
@@ -292,6 +310,9 @@ def offset_of_msgtype(d, m):
 
 def in_domain(d, m):
     """the property's quantifier, decided without the library and without the model"""
+    tags = fc.all_tags(d['hdr'] + d['body'] + d['trl'])
+    if len(set(tags)) != len(tags):
+        return False
     ref = fc.ref_encode(d, m)
     off = offset_of_msgtype(d, m)
     return off is not None and ref.find(b'35=') == off
@@ -550,7 +571,7 @@ def rename(mdefs, d):
 
 
 def gen_entry(rng, i, n_msg, n_mal, n_dec):
-    mdefs = gen_dictionary(rng, allow_float=(i % 3 != 2))
+    mdefs = gen_dictionary(rng, allow_float=(i % 3 != 2), overlap=(i % 11 == 10))
     entry = {'mdefs': mdefs, 'wf': [], 'mal': [], 'dec': []}
     seeds = []
     for _ in range(n_msg):
@@ -612,7 +633,7 @@ def execute_plan(ctx, rng, plan):
             ctx.count('wf:groups' + str(min(3, sum(fc.count_groups(m[s]) for s in m))) + ('+' if sum(fc.count_groups(m[s]) for s in m) >= 3 else ''))
             ctx.count('wf:assignment-order-' + ('dictionary' if fc.msg_groups_in_dict_order(d, m) else 'shuffled'))
             if not dom:
-                ctx.count('wf:out-of-domain(first 35= is not MsgType)')
+                ctx.count('wf:out-of-domain(first 35= is not MsgType, or a tag used at two levels)')
             got = impl_build(built, d, a, rng)
             rep = rt_replay_dict(mdefs, d, m)
             if got[0] != 'ok':
@@ -703,7 +724,7 @@ def run(ctx):
     rng = ctx.rng
     quick = ctx.tier == 'quick'
     ctx.notes.append('implementation group equality: ' + ('plain-dict (repaired)' if eq_is_repaired() else 'OrderedDict (order sensitive, known finding)'))
-    n_dict = 400 if quick else 9000
+    n_dict = 250 if quick else 7000
     n_msg = 8 if quick else 12
     n_mal = 4 if quick else 6
     n_dec = 12 if quick else 20
